@@ -387,32 +387,44 @@ def firstWildcardPos : Bytes → Option Nat
   | [] => none
   | c :: r => if isGlobCharacter c then some 0 else (firstWildcardPos r).map (· + 1)
 
+/-- the leading `!` / `\\!` / `\\#` handling of `parse::pattern` (only if `may_alter`) -/
+def stripNegation (pat : Bytes) (mayAlter : Bool) : Bool × Bytes :=
+  if mayAlter then
+    match pat with
+    | 33 :: r => (true, r)
+    | 92 :: 33 :: r => (false, 33 :: r)
+    | 92 :: 35 :: r => (false, 35 :: r)
+    | _ => (false, pat)
+  else (false, pat)
+
+/-- a leading `/` makes the pattern `ABSOLUTE` -/
+def stripAbsolute (pat : Bytes) : Bool × Bytes :=
+  match pat with
+  | 47 :: r => (true, r)
+  | _ => (false, pat)
+
+/-- a trailing `/` makes the pattern `MUST_BE_DIR` -/
+def stripMustBeDir (pat : Bytes) : Bool × Bytes :=
+  if pat.getLast? == some 47 then (true, pat.dropLast) else (false, pat)
+
+/-- the flags and the wildcard position computed from the final pattern text -/
+def mkPattern (negative absolute mustBeDir : Bool) (pat : Bytes) : Pattern :=
+  { text := pat,
+    mode := { noSubDir := !pat.contains 47,
+              endsWith := (match pat with
+                | 42 :: r => (firstWildcardPos r).isNone
+                | _ => false),
+              mustBeDir, negative, absolute },
+    firstWildcardPos := firstWildcardPos pat }
+
 /-- `parse::pattern(pat, may_alter)` -/
 def parsePattern (pat : Bytes) (mayAlter : Bool) : Option Pattern :=
   if pat.isEmpty then none else
-  let (negative, pat) : Bool × Bytes :=
-    if mayAlter then
-      match pat with
-      | 33 :: r => (true, r)
-      | 92 :: 33 :: r => (false, 33 :: r)
-      | 92 :: 35 :: r => (false, 35 :: r)
-      | _ => (false, pat)
-    else (false, pat)
-  if pat.all isAsciiWhitespace then none else
-  let (absolute, pat) : Bool × Bytes :=
-    match pat with
-    | 47 :: r => (true, r)
-    | _ => (false, pat)
-  let (mustBeDir, pat) : Bool × Bytes :=
-    if pat.getLast? == some 47 then (true, pat.dropLast) else (false, pat)
-  let noSubDir := !pat.contains 47
-  let endsWith :=
-    match pat with
-    | 42 :: r => (firstWildcardPos r).isNone
-    | _ => false
-  some { text := pat,
-         mode := { noSubDir, endsWith, mustBeDir, negative, absolute },
-         firstWildcardPos := firstWildcardPos pat }
+  let n := stripNegation pat mayAlter
+  if n.2.all isAsciiWhitespace then none else
+  let a := stripAbsolute n.2
+  let d := stripMustBeDir a.2
+  some (mkPattern n.1 a.1 d.1 d.2)
 
 /-- `a.eq_ignore_ascii_case(b)` -/
 def eqIgnoreAsciiCase (a b : Bytes) : Bool :=
